@@ -21,6 +21,8 @@ def gb : Int := 1000000000
 def timeMonthNs : Int := 2592000000000000        -- 30 days
 def dayNs : Int := 86400000000000
 def hourMs : Int := 3600000
+/-- 10000-01-01T00:00:00Z in Unix nanoseconds: gogoproto refuses to encode later instants -/
+def protoMaxNs : Int := 253402300800 * 1000000000
 
 /-- `sdk.Coins.Add` for the single-denomination coin lists the module builds -/
 def addCoins : Coins → Coins → Coins
@@ -55,7 +57,9 @@ def postFile (s : State) (h now : Int) (creator merkle : String) (fileSize maxPr
     let seconds := I64.mul (expires - h) 6
     let hours := Int.tdiv (Int.tdiv seconds 60) 60
     let days := Int.tdiv hours 24
-    req (0 < days)
+    -- the new gauge ends at `now + days` (calendar days, `AddDate`); storing a time at or after
+    -- 10000-01-01 makes the protobuf timestamp codec panic, which fails the transaction
+    req (0 < days ∧ now + days * dayNs < protoMaxNs)
     let cost ← storageCostKbs s.params.pricePerTbPerMonth kbs hours jklPrice
     req (0 ≤ cost)                                      -- sdk.NewCoin panics on a negative amount
     let spr := Dec.sub (Dec.sub Dec.one (Dec.quoInt (Dec.ofInt s.params.referralCommission) 100))
